@@ -50,7 +50,7 @@ fn schedule_strategy(maxlen: usize) -> BoxedStrategy<Vec<u8>> {
         // bursty: long solo runs with a few pre-emptions
         3 => prop::collection::vec((0u8..4, 1u8..=24), 0..=12).prop_map(|runs| runs.into_iter().flat_map(|(t, k)| std::iter::repeat(t).take(k as usize)).collect()),
         // one long pre-emption: thread a runs j points, then thread b runs alone for a long stretch, then a again
-        3 => (0u8..4, 0usize..48, 0u8..4, 20usize..220, 0usize..40).prop_map(|(a, j, b, l, k)| {
+        3 => (0u8..4, prop_oneof![3 => 0usize..12, 1 => 12usize..48], 0u8..4, 20usize..220, 0usize..40).prop_map(|(a, j, b, l, k)| {
             let mut v = vec![a; j];
             v.extend(std::iter::repeat(b).take(l));
             v.extend(std::iter::repeat(a).take(k));
@@ -65,7 +65,32 @@ pub fn case_b_strategy(tier: Tier, freelists: &'static [(u32, u8)], c12: bool) -
     let (maxops, maxthreads, schedlen) = if tier == Tier::Thorough { (10usize, 4usize, 160usize) } else { (6, 3, 64) };
     let extra_pre = prop::collection::vec(prop_oneof![3 => any::<u16>().prop_map(|h| Op::Drop { h }), 1 => (1u32..60).prop_map(|n| Op::AllocBytes { n: crate::case::Size::Abs(n), owned: false, via: 0 })], 0..=3);
     let spurious = if tier == Tier::Thorough { any::<bool>().boxed() } else { Just(false).boxed() };
-    (cfg_b(freelists), prelude_strategy(), extra_pre, prop::collection::vec(prop::collection::vec(pop_strategy(c12), 1..=maxops), 2..=maxthreads), schedule_strategy(schedlen), prop_oneof![2 => Just(0u8), 3 => 1u8..=40], spurious)
+    // ABA provokers: one thread pops a segment, splits it, takes the remainder and frees the first part again
+    // (the same offset comes back with a different size) while a victim is inside its own pop
+    let popper = ((2u8..=5, -9i8..=9), (5u8..=8, -9i8..=0), prop::collection::vec(pop_strategy(c12), 0..=2)).prop_map(|((n1, d1), (n2, d2), rest)| {
+        let mut v = vec![POp::AllocRel { num: n1, d: d1, payload: 0 }, POp::AllocRel { num: n2, d: d2, payload: 0 }, POp::Drop { h: 0 }];
+        v.extend(rest);
+        v
+    });
+    let victim = ((5u8..=8, -9i8..=9), prop::collection::vec(pop_strategy(c12), 0..=2)).prop_map(|((n, d), rest)| {
+        let mut v = vec![POp::AllocRel { num: n, d, payload: 0 }];
+        v.extend(rest);
+        v
+    });
+    let templ = (popper, victim, prop::collection::vec(pop_strategy(c12), 1..=maxops), 0u8..6, any::<bool>()).prop_map(|(p, v, other, perm, three)| {
+        let mut t = vec![v, p];
+        if three {
+            t.push(other);
+        }
+        let k = perm as usize % t.len();
+        t.rotate_left(k);
+        t
+    });
+    let progs = prop_oneof![
+        4 => prop::collection::vec(prop::collection::vec(pop_strategy(c12), 1..=maxops), 2..=maxthreads),
+        1 => templ,
+    ];
+    (cfg_b(freelists), prelude_strategy(), extra_pre, progs, schedule_strategy(schedlen), prop_oneof![2 => Just(0u8), 3 => 1u8..=40], spurious)
         .prop_map(|(cfg, mut pre, extra, progs, schedule, mark_preempt, spurious)| {
             pre.extend(extra);
             CaseB { cfg, pre, progs, schedule, mark_preempt, spurious }
